@@ -61,7 +61,12 @@ def items(tier: str) -> List[Any]:
                 seen.add(s)
                 out.append(("raw", s))
     per_focus: dict = {}
-    for focus, mode, s in detspaces.detector_spaces(tier, chains=False):
+    gen = detspaces.detector_spaces(tier, chains=False)
+    if tier != "quick":
+        import itertools  # pylint: disable=import-outside-toplevel
+
+        gen = itertools.chain((x for x in gen if x[0] == "rekey-to"), (x for x in detspaces.detector_spaces("quick", chains=False) if x[0] != "rekey-to"))
+    for focus, mode, s in gen:
         if mode in ("shuffle", "g1a"):
             continue
         full = focus in ("rekey-to", "group-size-check", "can-close-account")
